@@ -14,27 +14,27 @@ import (
 )
 
 type Violation struct {
-	Prop   string   `json:"prop"`
-	Sig    string   `json:"sig"`
-	Msg    string   `json:"msg"`
-	Scn    string   `json:"scn"`
-	Chosen []string `json:"chosen"`
+	Prop   string        `json:"prop"`
+	Sig    string        `json:"sig"`
+	Msg    string        `json:"msg"`
+	Scn    string        `json:"scn"`
+	Chosen []string      `json:"chosen"`
 	At     time.Duration `json:"at"`
 }
 
 // Job: explore the subtree below Prefix with at most Budget further deviations.
 type Job struct {
-	ID     int        `json:"id"`
-	Prop   string     `json:"prop"`
-	Scn    *Scenario  `json:"scn"`
-	Prefix []string   `json:"prefix"`
-	Budget int        `json:"budget"`
-	Split  bool       `json:"split"`  // run Prefix only and return the children as new jobs
-	Replay bool       `json:"replay"` // run Prefix only, return trace hash + violations
-	Skip   []string   `json:"skip,omitempty"` // prefixes (joined) known to kill the worker
-	Trace  bool       `json:"trace,omitempty"`
-	Tag    string     `json:"tag,omitempty"`
-	TagK   int        `json:"tagk,omitempty"`
+	ID     int       `json:"id"`
+	Prop   string    `json:"prop"`
+	Scn    *Scenario `json:"scn"`
+	Prefix []string  `json:"prefix"`
+	Budget int       `json:"budget"`
+	Split  bool      `json:"split"`          // run Prefix only and return the children as new jobs
+	Replay bool      `json:"replay"`         // run Prefix only, return trace hash + violations
+	Skip   []string  `json:"skip,omitempty"` // prefixes (joined) known to kill the worker
+	Trace  bool      `json:"trace,omitempty"`
+	Tag    string    `json:"tag,omitempty"`
+	TagK   int       `json:"tagk,omitempty"`
 }
 
 type JobResult struct {
@@ -42,9 +42,9 @@ type JobResult struct {
 	Execs       int         `json:"execs"`
 	Steps       int         `json:"steps"`
 	Divergences int         `json:"divergences"`
-	Hashes      []uint64    `json:"hashes,omitempty"`    // execution hashes (distinct within job)
+	Hashes      []uint64    `json:"hashes,omitempty"`     // execution hashes (distinct within job)
 	NonTrivial  []uint64    `json:"nontrivial,omitempty"` // hashes of non-trivial executions
-	FPs         []uint64    `json:"fps,omitempty"`       // new state fingerprints
+	FPs         []uint64    `json:"fps,omitempty"`        // new state fingerprints
 	Viol        []Violation `json:"viol,omitempty"`
 	Children    [][]string  `json:"children,omitempty"`
 	Stuck       int         `json:"stuck"` // executions that left stuck goroutines (worker restarts)
@@ -222,20 +222,20 @@ func WorkerMain(t *testing.T, curFile string) {
 // ---------------------------------------------------------------- parent side
 
 type Pool struct {
-	exe     string
-	n       int
-	dir     string
-	mu      sync.Mutex
-	queue   []*Job
-	cond    *sync.Cond
-	active  int
-	nextID  int
-	onDone  func(j *Job, r *JobResult)
-	onCrash func(j *Job, prefix []string, stderr string)
-	stop    bool
+	exe      string
+	n        int
+	dir      string
+	mu       sync.Mutex
+	queue    []*Job
+	cond     *sync.Cond
+	active   int
+	nextID   int
+	onDone   func(j *Job, r *JobResult)
+	onCrash  func(j *Job, prefix []string, stderr string)
+	stop     bool
 	deadline time.Time
-	Expired bool
-	Crashes int
+	Expired  bool
+	Crashes  int
 	Restarts int
 }
 
@@ -408,4 +408,3 @@ func (p *Pool) Run() {
 	}
 	wg.Wait()
 }
-
